@@ -73,7 +73,7 @@ def _code(text):
     return c
 
 
-def check(text, specs, protected_extra=0):
+def check(text, specs, protected_extra=0, force_alias=False):
     """protected_extra: how many of the generated arguments (the lowest ones) the construct may only
     read, not remove or reorder (₌ / ₍ : the first operand works on a copy of the stack).
     -> ('discard', why) | None | (sig, msg)"""
@@ -93,10 +93,22 @@ def check(text, specs, protected_extra=0):
     # one protected entry that is the very object of a list argument (what `¥ ¥` or `←a ←a` leave on the stack):
     # the entry below must keep its identity and its value even though the element also gets it as an argument
     alias_i = None
+    copy_of = None
+    sel = 2 if force_alias else sum(map(ord, text + repr(specs)))   # deterministic choice per case: 2 of 3 cases get the alias entry
     for i_, s_ in enumerate(specs):
-        if isinstance(s_, tuple) and s_ and s_[0] in ("l", "z") and not elemargs.has_function(s_) and (len(text) + i_) % 2 == 0:
+        if isinstance(s_, tuple) and s_ and s_[0] in ("l", "z") and not elemargs.has_function(s_) and sel % 3 != 0:
             alias_i = i_
             sent.append(args[i_])
+            if isinstance(args[i_], LazyList) and sel % 2 == 0:
+                # and a partly read COPY of that argument (what `:` leaves): the copy's reader is suspended inside the
+                # original's cached prefix while the element works on the original
+                try:
+                    if args[i_].has_ind(0):
+                        copy_of = harness.vyxal.helpers.deep_copy(args[i_])
+                        copy_of.has_ind(0)
+                        sent.append(copy_of)
+                except Exception:  # noqa: BLE001
+                    copy_of = None
             break
     # two protected entries made by the interpreter itself: what ¾ and ¥ push for a non-empty global array / register
     stack = sent
@@ -104,7 +116,7 @@ def check(text, specs, protected_extra=0):
     ctx.global_array = [11, [12]]
     ctx.register = [21, 22]
     r0 = harness.exec_py(_code("¾¥"), stack, ctx, budget=50_000, wall=5)
-    if r0.exc is not None or len(stack) != 5 + pad + (alias_i is not None):
+    if r0.exc is not None or len(stack) != 5 + pad + (alias_i is not None) + (copy_of is not None):
         return ("discard", "retrieval sentinels")
     sent = list(stack)
     nsent = len(sent)
@@ -154,6 +166,14 @@ def check(text, specs, protected_extra=0):
                 if now != elemargs.denotation(specs[alias_i]):
                     what = (f"the protected entry that is the same object as argument {alias_i} denoted "
                             f"{harness.jsonable(elemargs.denotation(specs[alias_i]))!r:.160} before and {harness.jsonable(now)!r:.160} after")
+                elif copy_of is not None:
+                    try:
+                        nowc = norm(copy_of, cap=3000)
+                    except Exception as e:  # noqa: BLE001
+                        nowc = ("raises", repr(e))
+                    if nowc != elemargs.denotation(specs[alias_i]):
+                        what = (f"the protected entry that is a partly read copy of argument {alias_i} denoted "
+                                f"{harness.jsonable(elemargs.denotation(specs[alias_i]))!r:.160} before and {harness.jsonable(nowc)!r:.160} after")
     if what:
         return (f"C09:{text}:{_types(specs)}", f"{text} on sentinels + {specs!r}: {what}")
     return None
@@ -176,8 +196,28 @@ def _shard_elements(rec, arg):
         _one_element(rec, key, seed, n)
 
 
+FIXED_LISTS = [("z", [1, 2, 3, 4, 5], 0), ("z", [1, 2, 3, 4, 5], 2), ("l", [1, 2, 3, 4, 5]), ("z", [("l", [1, 2]), ("l", [3])], 1)]
+FIXED_SCALARS = [-1, -2, 0, 1, 4, 7, ("s", "ab")]
+
+
+def _fixed_list_scalar(rec, key):
+    """dyads: a (lazy / eager) list that is also referenced below x boundary scalars (negative, zero, past the end), both orders"""
+    for lst in FIXED_LISTS:
+        for sc in FIXED_SCALARS:
+            for specs in ([lst, sc], [sc, lst]):
+                r = check(key, specs, force_alias=True)
+                if r and r[0] == "discard":
+                    rec.discard(r[1])
+                    continue
+                rec.case(key=(key, repr(specs), "fixed"), nontrivial=True, cls=["element", "fixed list x boundary scalar"])
+                if r:
+                    rec.fail(r[0], {"text": key, "specs": elemargs.tolist(specs), "protected_extra": 0, "force_alias": True}, r[1])
+
+
 def _one_element(rec, key, seed, n):
     k = arity_of(key)
+    if k == 2 and key not in EXEMPT:
+        _fixed_list_scalar(rec, key)
 
     def t(args):
         _do(rec, key, key, list(args), ["element", f"arity{k}"])
@@ -269,7 +309,7 @@ def replay(case):
     pe = case.get("protected_extra", 0)
     if not (isinstance(pe, int) and 0 <= pe <= len(specs)):
         return None
-    r = check(text, specs, pe)
+    r = check(text, specs, pe, force_alias=bool(case.get("force_alias")))
     if r and r[0] == "discard":
         return None
     return r
